@@ -20,7 +20,13 @@ META = {
              "directories), pixel type uint8/uint16, target data type and "
              "storage options; pixels are position-coded. non-trivial = the "
              "last slice group is partial or there are >= 2 slice groups; "
-             "distinct by the whole case."),
+             "distinct by the whole case."
+             ' Also: compressed_segmentation scales, per-directory and per'
+             '-file pixel depths, file naming variants (unpadded numbers, '
+             'upper-case extensions, TIFF, words) with the lexicographic-o'
+             'rder oracle, symbolic links, directory names whose given ord'
+             'er is not sorted, default options requested by omitting the '
+             'argument.'),
     "exhaustive_parts": ["all 48 orientation codes (each with its own "
                          "Hypothesis run)"],
     "trusted_base": ["vlib/refs/orient_ref.py (from the letters only)",
